@@ -24,6 +24,10 @@ def run(chk):
     # under a best permutation of the spatial stream (exact lattice, non-uniform weights)
     irecs = core.run_driver('mm', tier=chk.tier, seed=chk.seed, args=dict(prop='inlinepa'))
     chk.validate('inline-pa', 'Trace_MM', 'Trace_MM.cfg', irecs, driver='mm', jobs=12)
+    # growth beyond the listed property: the Dirichlet-prior (MAP) weight estimator - exhaustive lattice facts and the code
+    chk.mc('dirichlet-weights-lattice', 'MC_Extras', 'MC_Extras_q.cfg' if q else 'MC_Extras.cfg', workers=8)
+    drecs = core.run_driver('extras', tier=chk.tier, seed=chk.seed, args=dict(what='dirichlet'))
+    chk.validate('dirichlet-weights', 'Trace_Extras', 'Trace_Extras.cfg', drecs, driver='extras', jobs=4, growth=True)
     goods = [x for x in recs if x['kind'] == 'posterior' and x['exc'] == '' and x['full'][-2] >= 2
             and 'call=predict' in x['fp'] and 'sam=False' in x['fp']]
     good = goods[0] if goods else None
